@@ -1011,9 +1011,9 @@ def install(eng: Engine):
     add(r'^<.* as Iterator>::for_each::<', m_iter_for_each)
     add(r'^<.* as Iterator>::count$', m_iter_count)
     add(r'^(std::collections::hash_map::)?Entry::<.*>::insert_entry$', m_entry_insert_entry)
-    add(r'^HashMap::<.*>::clear$', m_hashmap_clear)
-    add(r'^HashMap::<.*>::len$', m_hashmap_len)
-    add(r'^HashMap::<.*>::is_empty$', m_hashmap_is_empty)
+    add(r'^Hash(Map|Set)::<.*>::clear$', m_hashmap_clear)
+    add(r'^Hash(Map|Set)::<.*>::len$', m_hashmap_len)
+    add(r'^Hash(Map|Set)::<.*>::is_empty$', m_hashmap_is_empty)
     add(r'^HashMap::<.*>::contains_key::<', m_hashmap_contains_key)
     add(r'^<Vec<.*> as Extend<.*>>::extend::<', m_vec_extend)
     add(r'^Vec::<.*>::extend::<', m_vec_extend)
